@@ -167,10 +167,11 @@ def ob_sv_normalize(game, nb, override, perm, ctx):
     if len(out) != len(bpms) or "multiplier" not in out.df.columns:
         return
     rows = list(zip(col(out.df, "offset"), col(out.df, "multiplier")))
-    src = [bpms[i] for i in perm] if perm else bpms
-    for i, ((t, mu), (bt_, bv_)) in enumerate(zip(rows, src)):
-        ctx.check("sv%d.at-its-tempo-point" % i, ctx.eq(t, bt_))
-        ctx.check("sv%d.multiplier-times-bpm-is-reference" % i, False if isna(mu) else ctx.eq(mu * bv_, ref))
+    # one SV per tempo point, at its time (tempo points never share a time, so the pairing is unique; row order is free)
+    for i, (bt_, bv_) in enumerate(bpms):
+        ctx.check("tempo-point%d.has-its-sv-with-multiplier-times-bpm-equal-reference" % i,
+                  ctx.any(*[False if isna(mu) else ctx.all(ctx.eq(t, bt_), ctx.eq(mu * bv_, ref)) for t, mu in rows]), note="rows %r" % ([(ctx.value(a), ctx.value(b)) for a, b in rows],))
+    for i, (t, mu) in enumerate(rows):
         ctx.observe("sv%d.mult" % i, mu)
     bad = [c for c in out.df.columns if any(isna(v) for v in col(out.df, c))]
     ctx.check("result.no-missing-values", not bad, note="%s" % bad)
